@@ -4,8 +4,9 @@
 //!
 //! (a) `issuer`: `SdJwtCredentialValidator::{validate_credential, verify_signature}` — the binding core
 //!     {signing key, kid, method_id override, method_scope, credential issuer, nonce header x option} + dates
-//!     (bounds set/unset, owned clock) + structure + status x StatusCheck + FailFast + disclosures
-//!     {each presented/withheld, forged value, foreign, garbage, duplicated, reversed} + `_sd_alg`.
+//!     (bounds set/unset, owned clock) + structure + status x StatusCheck + FailFast + five concealable claims (subject
+//!     property, nested member, array element, member of a concealed object, that object) each presented/withheld +
+//!     tampering {forged value, foreign, not base64url, not an array, duplicated, reversed} + `_sd_alg` + attached KB-JWT.
 //! (b) `issuer-core`: the FULL product of the binding core (x entry point), crossed with <= 0 (quick) /
 //!     <= 1 (thorough) other deviations.
 //! (c) `kb`: `validate_key_binding_jwt` — KB-JWT absent/present, typ, alg, signing key (holder key, another key of the
@@ -20,6 +21,8 @@
 //! credential with exactly the withheld claims missing / the KB claims). rejected => (unless the case contains an
 //! alternative the statement leaves open) every reported error blames a condition that really is false — this is also
 //! the liveness direction: with no false condition there is nothing an error could rightly blame. Never a panic.
+//! Issuer side additionally: with unobjectionable disclosures the verdict (accepted / the error variants) equals that of
+//! `JwtCredentialValidator` on the same claims with nothing concealed ("the same rules as a plain JWT credential").
 
 use identity_core::common::{Object, Timestamp, Url};
 use identity_core::convert::FromJson;
